@@ -1039,6 +1039,10 @@ def _is_counter(du, l):
         if o.get("k") in ("copy", "move") and len(o["p"]) == 1 and isinstance(o["p"][0], dict) and o["p"][0].get("f") == 0:
             if _chain_root(du, o, 0) == l:
                 continue
+        if o.get("k") in ("copy", "move") and not o["p"] and 1 <= o["l"] <= du.fn.nargs and not du.defs.get(o["l"]) \
+                and not any(pk[0] == o["l"] for _b, _i, pk, _k in du.writes):
+            seen_const = True       # `let mut line_number = iteration_number;`: starts at the caller's value, like a parameter counter
+            continue
         return False
     return seen_const
 
